@@ -10,8 +10,64 @@
   action), `log msg` (OnLog), `test t r` (an EvalBool call).
 -/
 import YtkProofs.Pipeline
+import YtkProofs.Decisions2
 
 namespace Ytk.C12
+
+/-! ## decision tables regenerated from the source (extract/tables2.go) -/
+section DecisionTables2
+open Ytk.TableT Ytk.Pipeline
+
+/-- (i) The statement sequence of exec.Execute and the phases of ActionSpec.Do, regenerated from
+    pipeline/executor.go and pipeline/action_spec.go, are the model's; the model's `wrap` (Execute)
+    equals the function DRIVEN BY the regenerated statement list — OnBefore, then what Do produced, then
+    OnAfter carrying Do's error, that error returned — and `run (.doAct a)` (ActionSpec.Do) equals the
+    fold over the regenerated phase list — per phase: condition, execute through the executor, stop at
+    the first error — for all actions, states and fuel. -/
+theorem execute_table_matches_model :
+    Generated.executeSteps = executeStepsM ∧
+    Generated.actionDoPhases = actionDoPhasesM ∧ Generated.actionDoPhaseSteps = actionDoPhaseStepsM ∧
+    Generated.actionDoFinal = actionDoFinalM ∧
+    (∀ l r, wrap l r = wrapBy Generated.executeSteps l r) ∧
+    (∀ n a st, run (n + 1) (.doAct a) st = doActBy n a Generated.actionDoPhases st) := by
+  have h1 : Generated.executeSteps = executeStepsM := by decide +kernel
+  have h2 : Generated.actionDoPhases = actionDoPhasesM := by decide +kernel
+  refine ⟨h1, h2, by decide +kernel, by decide +kernel, ?_, ?_⟩
+  · intro l r; rw [h1]; exact wrap_eq_table l r
+  · intro n a st; rw [h2]; exact doAct_eq_table n a st
+
+/-- (ii) The rule of the property on the regenerated tables: a listener sees OnBefore, then the action
+    runs, then OnAfter — each exactly once and in this order — the after-notification carries the error
+    the action returned (`res0`), and that same error is what Execute returns; an action runs its own
+    operations first and then its children; before EACH of the two the condition (if there is one) is
+    evaluated — an evaluation error is returned, `false` ends the action with nil — the phase is run
+    through the executor (so the listener sees it) and its error is returned before the next phase
+    starts; after both phases nil is returned. -/
+theorem execute_table_rule :
+    Generated.executeSteps.idxOf "recv.l.OnBefore(v0)" < Generated.executeSteps.idxOf "res0=arg0.Do(v0)" ∧
+    Generated.executeSteps.idxOf "res0=arg0.Do(v0)" < Generated.executeSteps.idxOf "recv.l.OnAfter(v0,res0)" ∧
+    Generated.executeSteps.idxOf "recv.l.OnAfter(v0,res0)" < Generated.executeSteps.idxOf "return res0" ∧
+    Generated.executeSteps.getLast? = some "return res0" ∧
+    Generated.executeSteps.head? = some "v0:=recv.newCtx(arg0)" ∧
+    Generated.executeSteps.length = 5 ∧ Generated.executeSteps.Nodup ∧
+    Generated.actionDoPhases = ["recv.Operations", "recv.Children"] ∧
+    Generated.actionDoPhaseSteps =
+      ["if recv.When!=nil{if v0,v1:=arg0.TemplateEngine().EvalBool(*recv.When,arg0.Snapshot());v1!=nil{return v1}else if !v0{return nil}}",
+       "v2:=arg0.Executor().Execute(phase)", "if v2!=nil{return v2}"] ∧
+    Generated.actionDoFinal = ["return nil"] := by
+  decide +kernel
+
+/-- (iii) the tables are not empty; and the trace the regenerated statement list gives a concrete run
+    is the well-nested one: before, the action's own events, after with its error -/
+theorem nonvacuous_execute_tables :
+    Generated.executeSteps ≠ [] ∧ Generated.actionDoPhases.length = 2 ∧ Generated.actionDoPhases.Nodup ∧
+    Generated.actionDoPhaseSteps.length = 3 ∧
+    (wrapBy Generated.executeSteps "a" ⟨[.ran "x"], ⟨[], []⟩, some .cond⟩).tr =
+      [.before "a", .ran "x", .after "a" (some .cond)] ∧
+    (wrapBy Generated.executeSteps "a" ⟨[.ran "x"], ⟨[], []⟩, some .cond⟩).err = some .cond := by
+  decide +kernel
+
+end DecisionTables2
 open Ytk.Pipeline
 
 /-! ### the regenerated table (decided by the kernel against what op_spec.go says now) -/
